@@ -495,6 +495,8 @@ type vnPuppet struct {
 	// Tunnels by the peer node's name
 	Tunnels map[string]*vnTunnel
 	nextIdx uint32
+	// LastStage0 is the most recent first handshake message this puppet produced.
+	LastStage0 []byte
 }
 
 type vnTunnel struct {
@@ -575,6 +577,7 @@ func (p *vnPuppet) HandshakeVia(node *vnNode, deliver func(msg []byte)) *vnTunne
 	if err != nil {
 		panic(err)
 	}
+	p.LastStage0 = msg
 	deliver(msg)
 	for _, in := range p.TakeInbox() {
 		if !in.HOK || in.H.Type != header.Handshake {
